@@ -31,6 +31,13 @@ def handle (j : Json) : Option Json := do
       let n ← getRat j "n"
       let a ← getRatList j "a"
       pure (Json.mkObj [("abs", ratJ (qabs (f / n))), ("feasible", Json.arr (a.map (fun v => Json.bool (minAbsFeasible f n v))).toArray)])
+  | "minabs_relax" =>
+      -- retained bound of the converted min-abs goal, on the scaled auxiliary variable
+      let fstar ← getRat j "fstar"
+      let n ← getRat j "n"
+      let r ← getRat j "r"
+      let cr ← getRat j "cr"
+      pure (Json.mkObj [("upper", ratJ (retainedUpper (qabs fstar / n) (convertedRelaxation r n) 1 cr))])
   | "plan" =>
       -- row counts and objective-row bounds of the three loops at priority index k
       let nbase ← getNat j "base"
